@@ -82,6 +82,18 @@ def handle : Handler := fun op args =>
         match r with
         | some l => toString l.length ++ " " ++ showPairs l
         | none => "0"))
+  | "c12.iseq" => withArgs (do let c ← pRats; let reqs ← pList (do let n ← pNat; let a ← pRat; let b ← pRat; pure (n, a, b)); pure (c, reqs)) args
+      fun (c, reqs) =>
+      -- roots per distinct order, then the model's `integSeq`
+      let orders := (reqs.map (·.1)).eraseDups
+      let tabs := orders.map (fun n => (n, glRoots rnd cospiD epsQ fuelN n))
+      if tabs.any (fun t => t.2.isNone) then "undef" else
+      let zs (n : Nat) : List (Rat × Rat) := match tabs.find? (fun t => t.1 = n) with
+        | some (_, some l) => l
+        | _ => []
+      let rs := integSeq (polyEval c) (fun n i => ((zs n).getD i (0, 0)).1) (fun n i => ((zs n).getD i (0, 0)).2) reqs
+      if rs.any (fun r => match r with | .ok _ => false | .error _ => true) then "err" else
+      "ok " ++ toString rs.length ++ " " ++ " ".intercalate (rs.map (fun r => match r with | .ok v => showRat v | .error _ => "0/1"))
   | "c12.sumvals" => withArgs (do let v ← pRats; let rw ← pPairs; pure (v, rw)) args fun (v, rw) =>
       match integrateGLvals v rw with
       | .ok r => "ok " ++ showRat r
